@@ -133,6 +133,9 @@ def run(ctx) -> None:
                                   "an undefined reference at any position of the rule is reported")
         ctx.extra["positions_tried"] = n
     _rest(ctx, I, me, y2r)
+    # O7: the extra macro files the user names reach the compiler as named
+    from ._matchrules import macro_files_reach_the_compiler
+    macro_files_reach_the_compiler(ctx, "C19.O7.extra-files-reach-the-compiler")
 
 
 def shape_rules(ctx, I, R1, R4, R2, only_undefined=False):
